@@ -120,6 +120,19 @@ def run_split(ctx, prog, plan_, T, Tsteps, K, stats):
             return False
         return True
 
+    def tape_escape(exc, until_event=None):
+        # an unhandled failure of the program escaping from a call made AFTER the first escape: on the tape like in
+        # the uninterrupted run (the until-event's own, handled, failure raised by run(until=E) is not one)
+        if until_event is not None and until_event.callbacks is not None and type(exc) is RuntimeError \
+                and env.peek() == float("inf") and "until" in str(exc):
+            return                           # the kernel's own "no scheduled events left but until-event not triggered"
+        own = until_event is not None and until_event.callbacks is None and until_event._ok is False and \
+            type(exc) is type(until_event._value) and exc.args == until_event._value.args
+        if not own or mon.pending_escape is not None:
+            r.tape.append((env.now, "escape", kern.canon_exc(exc)))
+        elif mon.maybe_escape_step == env.steps:
+            state["post_ambiguous"] = True       # the until-event is a condition operand: handled or not, the boundary cannot tell
+
     def note_raise(exc):
         if mon.pending_escape is not None:
             mon.escaped(exc)
@@ -268,6 +281,7 @@ def run_split(ctx, prog, plan_, T, Tsteps, K, stats):
                     continue
                 res = r.run_call(until=el2[1])
                 if res[0] == "raise":
+                    tape_escape(res[1])
                     note_raise(res[1])
                 if res[0] == "ret" and env.now != el2[1]:
                     viol.append(("run-until-returned-at-wrong-time[after-an-escape]", "run(until=t) returned with now != t",
@@ -282,6 +296,7 @@ def run_split(ctx, prog, plan_, T, Tsteps, K, stats):
                     continue
                 res = r.run_call(until=E)
                 if res[0] == "raise":
+                    tape_escape(res[1], E)
                     note_raise(res[1])
                 if res[0] == "ret" and (E.callbacks is not None or res[1] is not E._value):
                     viol.append(("until-event-returned-early[after-an-escape]", "run(until=E) returned although E has not been processed (or not E's value)",
@@ -296,12 +311,36 @@ def run_split(ctx, prog, plan_, T, Tsteps, K, stats):
                     except K.EmptySchedule:
                         break
                     except prog_excs as exc:
+                        tape_escape(exc)
                         note_raise(exc)
                     except BaseException as exc:
                         viol.append(("unexpected-exception-from-step[after-an-escape]", "step() raised something that is neither EmptySchedule nor a failure of the program",
                                      repr(exc)[:200]))
                         break
         lost_failures(viol, "[after-an-escape]")
+        if not viol and T and T[-1][1] == "run-end" and T[-1][2] == "ret" and not state.get("post_ambiguous"):
+            # The uninterrupted reference went on with run() after every escaping failure until the agenda was exhausted.
+            # So does the split run now: nothing that is still scheduled may be lost, duplicated or reordered by the
+            # aborted call (an aborted run(until=t) leaves its stop marker behind; it must be harmless).
+            for _ in range(kern.Runner.MAX_ESCAPES + 2):
+                res = r.run_call()
+                if res[0] == "raise":
+                    tape_escape(res[1])
+                    note_raise(res[1])
+                    continue
+                if res[0] == "ret" and env.peek() != float("inf"):
+                    continue
+                break
+            skip = ("run-end", "run-returned-with-agenda-nonempty")
+            S = [e for e in r.tape if e[1] not in skip]
+            W = [e for e in T if e[1] not in skip]
+            stats["post_escape_full_comparisons"] += 1
+            if S != W:
+                i = kern.first_diff(S, W)
+                viol.append(("split-run-differs-from-whole-run[after-an-escape]",
+                             "after a call was aborted by an escaping failure and the run was continued, the remaining trace differs from the uninterrupted run (lost, duplicated or reordered)",
+                             {"first_diff": i, "split": S[i] if i is not None and i < len(S) else None,
+                              "whole": W[i] if i is not None and i < len(W) else None, "plan": plan_}))
         return viol, effective
     if not viol:
         if not state["ended"]:
@@ -447,7 +486,7 @@ def run_shard(ctx):
     if ctx.shard == 0:
         inf_stop_probe(ctx)
     stats = {k: 0 for k in ("plans", "numeric_stops", "stops_coinciding", "until_event_calls",
-                            "until_event_late_waiter", "step_calls", "refused_until", "inprocess_reruns", "skipped_many_escapes", "post_escape_calls", "stop_instants_of_other_numeric_type")}
+                            "until_event_late_waiter", "step_calls", "refused_until", "inprocess_reruns", "skipped_many_escapes", "post_escape_calls", "stop_instants_of_other_numeric_type", "post_escape_full_comparisons")}
     for i in ctx.cases(ncases(ctx.tier)):
         rng = ctx.rng(i)
         prog = kern.gen_program(rng, PROFILE)
@@ -475,7 +514,7 @@ def replay(ctx, case):
     if "netsplit_case" in case:
         return net_split_part(ctx, 150)
     stats = {k: 0 for k in ("plans", "numeric_stops", "stops_coinciding", "until_event_calls",
-                            "until_event_late_waiter", "step_calls", "refused_until", "inprocess_reruns", "skipped_many_escapes", "post_escape_calls", "stop_instants_of_other_numeric_type")}
+                            "until_event_late_waiter", "step_calls", "refused_until", "inprocess_reruns", "skipped_many_escapes", "post_escape_calls", "stop_instants_of_other_numeric_type", "post_escape_full_comparisons")}
     viol, _, _ = one_case(ctx, case["program"], case["plan"], stats)
     for m, what, wit in viol:
         ctx.violation(m, what, wit, case)
